@@ -42,6 +42,9 @@ out += ["", "%d runs of seeded changes against checks (a change seeded for C01 i
         "* `C16-full-buffer-retry-stall` (deadliner stuck for good after one overflow of its 10-slot output buffer): the generator split clock advances so that the buffer never overflowed; it now contains overflow probes (11–22 duties, many sharing a deadline, expire in one advance) followed by ordinary registrations that must still be reported.",
         "* `C17-v2-notify-after-lookup` (V2 reader re-reads the notify channel after its lookup: a Store in between is a lost wake-up): needs one exact interleaving; new op `awaitst` runs the Store of the awaited key from inside the reader's own `ctx.Done()` call (the 1st/2nd/3rd call, i.e. inside the lookup's lock or exactly between lookup and wait); the model outcome is that of `await; store`.",
         "* `C01-parsigex-forward-unfiltered-set` additionally needed mixed batches (a valid entry for one validator and an invalid entry for another in ONE message) early in the admission stream; they are now part of the systematic sweep.",
+        "* `C07-skip-deadliner-add-when-indexed` (the store skips the deadliner when the duty still has an index entry): first made the driver hang (its racing calls met at a barrier inside the scripted deadliner's `Add`; now with a time-out, and every driver has a no-progress watchdog reporting `harness:stuck_no_progress`); the state it needs — a partial stored for a duty that was trimmed between the deadliner's answer and the store — is now generated by call status `T` (the scripted deadliner processes the duty's expiry inside `Add`; model: `trim; call`).",
+        "* `C06-deadline-add-outside-lock` (dutydb asks the deadliner before taking its lock): new op `addrace` — the driver's deadliner expires the duty and runs a second real `Store` from inside `Add`; monitor `dutydb:expired_duty_data_served_after_race`.",
+        "* `C02-justification-sig-memo` (consensus wrapper memoises verified justification signatures by signature bytes only): a change of the admission layer, invisible to the `qbft.Run` stream; C02's check now also runs C05's admission stream (the adversary model of the agreement proof is what `handle` admits).",
         ""]
 txt = "\n".join(out)
 p = '/verif/DESIGN.md'
